@@ -2,6 +2,10 @@
 pub mod support {
     include!(concat!(env!("ETHERCRAB_VERIF_DIR"), "/support.rs"));
 }
+#[cfg(ethercrab_verif_h1)]
+pub mod h1 {
+    include!(concat!(env!("ETHERCRAB_VERIF_DIR"), "/h1.rs"));
+}
 #[cfg(kani)]
 pub mod c13 {
     include!(concat!(env!("ETHERCRAB_VERIF_DIR"), "/c13.rs"));
@@ -25,6 +29,10 @@ pub mod c03 {
 #[cfg(kani)]
 pub mod c06 {
     include!(concat!(env!("ETHERCRAB_VERIF_DIR"), "/c06.rs"));
+}
+#[cfg(all(kani, ethercrab_verif_h1))]
+pub mod c11 {
+    include!(concat!(env!("ETHERCRAB_VERIF_DIR"), "/c11.rs"));
 }
 #[cfg(all(kani, test))]
 mod playback_current {
